@@ -56,6 +56,8 @@ type hist struct {
 	Range     *[2]int64 `json:"range,omitempty"`
 	CrossTies bool      `json:"cross_ties"`
 	Rpc       bool      `json:"rpc"`
+	// FieldWhere: the WHERE tests a field; kept events carry it, the others another value or NO fields at all
+	FieldWhere bool `json:"fw,omitempty"`
 }
 
 var grpSeq int
@@ -107,6 +109,14 @@ func genHist(rng *vh.Rng, chunkSize, i int) hist {
 			outsideLo, outsideHi = w.Evs[0].Ts, w.Evs[len(w.Evs)-1].Ts
 		}
 		h.Init = append(h.Init, w)
+	}
+	if h.Where && rng.Bool() {
+		h.FieldWhere = true
+		for bi := range h.Init {
+			for ei := range h.Init[bi].Evs {
+				rdh.SetFieldMode(&h.Init[bi].Evs[ei], rng.Intn(4))
+			}
+		}
 	}
 	switch rng.Intn(6) {
 	case 0, 1:
@@ -160,6 +170,7 @@ func lbls(evs []rdh.Ev) []int {
 
 func setup(srv *lrsrv.Srv, h hist) *rdh.World {
 	w := rdh.NewWorld(srv, newGrp())
+	w.FieldWhere = h.FieldWhere
 	for _, wr := range h.Init {
 		if err := w.Write(wr.Part, wr.Evs); err != nil {
 			res.Note("write: %v", err)
@@ -275,6 +286,18 @@ func runOffsetAPI(srv *lrsrv.Srv, drv *vh.Driver, h hist, sec *vh.Section, only 
 		return true
 	}
 	if !cmp(all, fwd) {
+		// an event the filter must reject (e.g. a field-less event read after one whose fields match the WHERE) is not an
+		// ordering problem: say so
+		want := map[int]bool{}
+		for _, e := range fwd {
+			want[e.Lbl] = true
+		}
+		for _, l := range all {
+			if !want[l] {
+				fail("where-delivers-non-matching-event", "the forward read under WHERE/RANGE delivers an event that does not match (the offset laws are stated with the filter applied)", probe{}, fmt.Sprint(all), fmt.Sprint(lbls(fwd)))
+				return
+			}
+		}
 		fail("forward-order", "the forward read is not the time-ordered merge of the matching events (C04's subject; the offset oracle needs it)", probe{}, fmt.Sprint(all), fmt.Sprint(lbls(fwd)))
 		return
 	}
@@ -853,6 +876,14 @@ func genHistTies(rng *vh.Rng, chunkSize int) hist {
 			seq[p]++
 		}
 		h.Init = append(h.Init, w)
+	}
+	if h.Where && rng.Bool() {
+		h.FieldWhere = true
+		for bi := range h.Init {
+			for ei := range h.Init[bi].Evs {
+				rdh.SetFieldMode(&h.Init[bi].Evs[ei], rng.Intn(4))
+			}
+		}
 	}
 	if rng.Chance(1, 3) {
 		h.Range = &[2]int64{ts + 1, ts + 4}
